@@ -3,15 +3,18 @@ package harness
 import (
 	"encoding/binary"
 	"fmt"
+	"net"
 	"os"
 	"runtime"
 	"sort"
 	"strings"
+	"sync"
 	"testing"
 	"time"
 
 	"github.com/jcmturner/gofork/encoding/asn1"
 	"github.com/jcmturner/gokrb5/v8/asn1tools"
+	"github.com/jcmturner/gokrb5/v8/client"
 	"github.com/jcmturner/gokrb5/v8/config"
 	"github.com/jcmturner/gokrb5/v8/credentials"
 	"github.com/jcmturner/gokrb5/v8/crypto"
@@ -241,6 +244,18 @@ func c04Entries(m *Model) []c04Entry {
 				names = append(names, n)
 			}
 			sort.Strings(names) // (map order would make the input indices differ from run to run)
+			// minimal tables whose offset / size fields sit on the 64-bit and 32-bit limits (corpus, first)
+			mk := func(ty, size uint32, off uint64, data int) []byte {
+				b := make([]byte, 24+data)
+				binary.LittleEndian.PutUint32(b[0:], 1)
+				binary.LittleEndian.PutUint32(b[8:], ty)
+				binary.LittleEndian.PutUint32(b[12:], size)
+				binary.LittleEndian.PutUint64(b[16:], off)
+				return b
+			}
+			for _, ty := range []uint32{1, 6, 10, 12} {
+				out = append(out, mk(ty, 16, 24, 16), mk(ty, 16, 0xFFFFFFFFFFFFFFF8, 0), mk(ty, 1, 0xFFFFFFFFFFFFFFFF, 0), mk(ty, 0xFFFFFFFF, 24, 8), mk(ty, 16, 1<<63, 0), mk(ty, 0x80000000, 0x7FFFFFFFFFFFFFF0, 16))
+			}
 			for _, n := range names {
 				out = append(out, sp[n])
 			}
@@ -327,7 +342,7 @@ func keyFor(et int32) []byte {
 // mutations of a seed
 func c04Mutate(rng *RNG, seed []byte, n int) [][]byte {
 	var out [][]byte
-	out = append(out, nil, []byte{})
+	out = append(out, nil, []byte{}, append([]byte{}, seed...))
 	// every truncation of short seeds, a sample of long ones
 	step := 1
 	if len(seed) > 600 {
@@ -377,7 +392,16 @@ func c04Mutate(rng *RNG, seed []byte, n int) [][]byte {
 				}
 			}
 		case 8:
-			c = rng.Bytes(1 + rng.Intn(40))
+			if rng.Intn(2) == 0 {
+				c = rng.Bytes(1 + rng.Intn(40))
+			} else { // an 8-byte field (PAC offsets) near 2^64 or 2^63, little endian
+				p := rng.Intn(len(c))
+				for k, x := range [][]byte{{0xf8, 0xff, 0xff, 0xff, 0xff, 0xff, 0xff, 0xff}, {0xff, 0xff, 0xff, 0xff, 0xff, 0xff, 0xff, 0xff}, {0, 0, 0, 0, 0, 0, 0, 0x80}, {0xf0, 0xff, 0xff, 0xff, 0xff, 0xff, 0xff, 0x7f}}[rng.Intn(4)] {
+					if p+k < len(c) {
+						c[p+k] = x
+					}
+				}
+			}
 		}
 		out = append(out, c)
 	}
@@ -411,6 +435,8 @@ func init() {
 		rng := NewRNG(seed)
 		count := 0
 		maxRatio := 0.0
+		var fails []string
+		seenKinds := map[string]int{}
 		for _, sd := range e.seeds(rng) {
 			for _, in := range c04Mutate(rng, sd, n) {
 				count++
@@ -422,7 +448,12 @@ func init() {
 				p := Protect(func() { e.run(in) })
 				runtime.ReadMemStats(&ms1)
 				if p != "" {
-					return fmt.Sprintf("panic %d %s %s", count-1, X(in), strings.ReplaceAll(cut(p, 160), " ", "_"))
+					k := "panic:" + cut(p, 60)
+					if seenKinds[k] < 2 && len(fails) < 12 {
+						seenKinds[k]++
+						fails = append(fails, fmt.Sprintf("panic~%d~%s~%s", count-1, X(in), strings.ReplaceAll(cut(p, 160), " ", "_")))
+					}
+					continue
 				}
 				alloc := float64(ms1.TotalAlloc - ms0.TotalAlloc)
 				bound := 4e6 + 3000*float64(len(in))
@@ -430,9 +461,15 @@ func init() {
 					maxRatio = r
 				}
 				if alloc > bound {
-					return fmt.Sprintf("alloc %d %s %d", count-1, X(in), int64(alloc))
+					if seenKinds["alloc"] < 2 && len(fails) < 12 {
+						seenKinds["alloc"]++
+						fails = append(fails, fmt.Sprintf("alloc~%d~%s~%d", count-1, X(in), int64(alloc)))
+					}
 				}
 			}
+		}
+		if len(fails) > 0 {
+			return fmt.Sprintf("fail %d %s", count, strings.Join(fails, " "))
 		}
 		return fmt.Sprintf("ok %d %.3f", count, maxRatio)
 	}
@@ -480,42 +517,45 @@ func TestC04(t *testing.T) {
 					v.Sample(e.name + " " + ans)
 				}
 				continue
-			case len(f) >= 3 && (f[0] == "panic" || f[0] == "alloc"):
-				what := "an input makes the entry point panic"
-				sigk := "panic"
-				if f[0] == "alloc" {
-					what, sigk = "an input makes the entry point allocate out of proportion to its size", "alloc"
-				}
-				sig := fmt.Sprintf("c04:%s:%s", sigk, e.name)
-				if e.ndr && (f[0] == "alloc" || strings.Contains(ans, "rpc") || strings.Contains(ans, "ndr")) {
-					sig = "c04:ndr:" + e.name
-				}
-				v.Violate("failing-input", sig, what, map[string]string{"entry": e.name, "input": f[2], "detail": strings.Join(f[3:], " "), "seed": fmt.Sprint(seed), "index": f[1]})
+			case len(f) >= 3 && f[0] == "fail":
+				c04Report(v, e, seed, f[2:])
 			default:
-				// the child died (out of memory) or stalled: bisect for the input
-				culprit, kind := "", ans
-				lo, hi := 0, 1<<20
+				// the child died (out of memory) or stalled: bisect for the input, report it, and go on with the
+				// inputs after it (up to 8 culprits per batch)
 				probe := func(a, b int) string {
 					sb2 := StartSandbox(t)
 					defer sb2.Close()
 					return sb2.Call(fmt.Sprintf("c04.batch %d %d %d %d %d", idx, seed, n, a, b), 120*time.Second)
 				}
+				total := 1 << 20
 				if a0 := probe(1<<29, 1<<29+1); strings.HasPrefix(a0, "ok") {
-					fmt.Sscanf(a0, "ok %d", &hi)
+					fmt.Sscanf(a0, "ok %d", &total)
 				}
-				for hi-lo > 1 {
-					mid := (lo + hi) / 2
-					if a1 := probe(lo, mid); strings.HasPrefix(a1, "ok") {
-						lo = mid
-					} else {
-						hi = mid
-						kind = a1
+				start := 0
+				for round := 0; round < 8 && start < total; round++ {
+					rest := probe(start, total)
+					if rf := strings.Fields(rest); len(rf) > 0 && rf[0] == "ok" {
+						break
+					} else if len(rf) >= 3 && rf[0] == "fail" {
+						c04Report(v, e, seed, rf[2:])
+						break
 					}
-				}
-				inputHex := ""
-				if a1 := probe(lo, lo+1); !strings.HasPrefix(a1, "ok") {
-					culprit, kind = fmt.Sprint(lo), a1
-					// the same PRNG stream gives the same inputs here
+					lo, hi := start, total
+					kind := rest
+					for hi-lo > 1 {
+						mid := (lo + hi) / 2
+						if a1 := probe(lo, mid); strings.HasPrefix(a1, "ok") || strings.HasPrefix(a1, "fail") {
+							if strings.HasPrefix(a1, "fail") {
+								c04Report(v, e, seed, strings.Fields(a1)[2:])
+							}
+							lo = mid
+						} else {
+							hi = mid
+							kind = a1
+						}
+					}
+					culprit, inputHex := fmt.Sprint(lo), ""
+					a1 := probe(lo, lo+1)
 					r2 := NewRNG(seed)
 					cnt := 0
 					for _, sd := range e.seeds(r2) {
@@ -526,12 +566,82 @@ func TestC04(t *testing.T) {
 							cnt++
 						}
 					}
+					start = lo + 1
+					if kf := strings.Fields(a1); len(kf) >= 3 && kf[0] == "fail" {
+						c04Report(v, e, seed, kf[2:])
+						continue
+					} else if strings.HasPrefix(a1, "ok") {
+						continue // not reproducible on its own
+					}
+					kind = a1
+					sig := fmt.Sprintf("c04:%s:%s", strings.Fields(kind + " -")[0], e.name)
+					if e.ndr {
+						sig = "c04:ndr:" + e.name
+					}
+					v.Violate("failing-input", sig, "an input makes the entry point exhaust memory or stall", map[string]string{"entry": e.name, "batch": ans, "input-index": culprit, "input": inputHex, "single": kind, "seed": fmt.Sprint(seed)})
 				}
-				sig := fmt.Sprintf("c04:%s:%s", strings.Fields(kind + " -")[0], e.name)
-				if e.ndr {
-					sig = "c04:ndr:" + e.name
+			}
+		}
+	}
+	// KDC reply handling: a peer that accepts the connection and then stalls in various ways must not hold
+	// the caller for longer than the library's own deadlines (5 s per attempt)
+	{
+		type stall struct {
+			name string
+			send []byte
+		}
+		stalls := []stall{{"accepts-then-silent", nil}, {"announces-100-sends-10", append([]byte{0, 0, 0, 100}, make([]byte, 10)...)},
+			{"announces-2GB-sends-nothing", []byte{0x7f, 0xff, 0xff, 0xff}}, {"sends-half-a-length", []byte{0, 0}}}
+		results := make([]string, len(stalls))
+		var wg sync.WaitGroup
+		for i, st := range stalls {
+			wg.Add(1)
+			go func(i int, st stall) {
+				defer wg.Done()
+				port, l, u := reservePort()
+				u.Close()
+				stop := make(chan struct{})
+				go func() {
+					for {
+						c, err := l.Accept()
+						if err != nil {
+							return
+						}
+						go func(c net.Conn) {
+							defer c.Close()
+							buf := make([]byte, 4096)
+							c.Read(buf)
+							if st.send != nil {
+								c.Write(st.send)
+							}
+							<-stop // hold the connection open
+						}(c)
+					}
+				}()
+				cfg, _ := config.NewFromString(fmt.Sprintf("[libdefaults]\n default_realm = R.TEST\n dns_lookup_kdc = false\n udp_preference_limit = 1\n[realms]\n R.TEST = {\n  kdc = 127.0.0.1:%d\n }\n", port))
+				cl := client.NewWithPassword("u", "R.TEST", "pw", cfg, client.DisablePAFXFAST(true))
+				done := make(chan error, 1)
+				t0 := time.Now()
+				go func() { done <- cl.Login() }()
+				select {
+				case err := <-done:
+					if err == nil {
+						results[i] = "login succeeded against a stalling peer"
+					} else if time.Since(t0) > 12*time.Second {
+						results[i] = fmt.Sprintf("returned only after %.1fs", time.Since(t0).Seconds())
+					}
+				case <-time.After(20 * time.Second):
+					results[i] = "Client.Login has not returned after 20 s (the library's deadline is 5 s per attempt)"
 				}
-				v.Violate("failing-input", sig, "an input makes the entry point exhaust memory or stall", map[string]string{"entry": e.name, "batch": ans, "input-index": culprit, "input": inputHex, "single": kind, "seed": fmt.Sprint(seed)})
+				close(stop)
+				l.Close()
+			}(i, st)
+		}
+		wg.Wait()
+		for i, st := range stalls {
+			v.Case("stall/"+st.name, "KDC peer stalls -> "+map[bool]string{true: "returns in time", false: "late"}[results[i] == ""])
+			if results[i] != "" {
+				v.Violate("failing-input", "c04:stall:"+st.name, "a KDC peer that "+st.name+" keeps the caller waiting: "+results[i], map[string]string{"scenario": st.name})
 			}
 		}
 	}
@@ -593,4 +703,23 @@ func TestC04(t *testing.T) {
 	v.Note("entry points: " + strings.Join(names, "; "))
 	v.ModelAsks = m.N
 	v.Write(t)
+}
+
+func c04Report(v *Verdict, e c04Entry, seed uint64, items []string) {
+	for _, item := range items {
+		q := strings.SplitN(item, "~", 4)
+		if len(q) < 4 {
+			continue
+		}
+		what := "an input makes the entry point panic"
+		sig := fmt.Sprintf("c04:panic:%s:%s", e.name, cut(q[3], 40))
+		if q[0] == "alloc" {
+			what = "an input makes the entry point allocate out of proportion to its size"
+			sig = fmt.Sprintf("c04:alloc:%s", e.name)
+		}
+		if e.ndr && (q[0] == "alloc" || strings.Contains(q[3], "rpc") || strings.Contains(q[3], "ndr")) {
+			sig = "c04:ndr:" + e.name
+		}
+		v.Violate("failing-input", sig, what, map[string]string{"entry": e.name, "input": q[2], "detail": q[3], "seed": fmt.Sprint(seed), "index": q[1]})
+	}
 }
